@@ -9,8 +9,6 @@ Definition amt (v : V) : amount :=
   match v with VL [VI x; VI e] => mkA x (Z.to_nat e) | _ => mkA 0 0 end.
 Definition vamt (a : amount) : V := VL [VI (val a); VN (exp a)].
 
-Definition opname (v : V) : string := string_of_list_byte (vs_ v).
-
 Definition run_num (args : list V) : list V :=
   match args with
   | o :: rest =>
